@@ -179,6 +179,7 @@ def stepLine (d : DSt) (toks : List String) : DSt × String :=
     match parseEv rest with
     | some ev => ({ d with trace := ev :: d.trace }, "ok")
     | none => (d, "bad-op")
+  | ["nop"] => (d, "done")
   | "stress" :: _ => (d, "done")
   | "burst" :: _ => (d, "done")
   | "addrace" :: _ => (d, "done")
